@@ -327,10 +327,8 @@ json raw_state(world& w)
     }
     r["integrity"] = rr.text("PRAGMA integrity_check");
     json fk = json::array();
-    rr.query("PRAGMA foreign_key_check", [&](sqlite3_stmt* st) {
-        const unsigned char* p = sqlite3_column_text(st, 0);
-        fk.push_back(std::string(p ? (const char*)p : ""));
-    });
+    for (auto& v : rr.fk_violations())
+        fk.push_back(v);
     r["fk"] = fk;
     r["digest"] = rr.digest();
     return r;
